@@ -342,8 +342,12 @@ theorem C03_no_crash (o : DOpts) (ho : OptsOk o) (t : Ty) (ha : t.acc = true) (h
   simp only [(compile_noFail o).1 {} t ha]
   exact (no_crash o ho).1 {} t ha hn rfl d hd
 
-/-- outside the hypotheses the pinned tree does crash: a non-JSON object, an integer beyond the doubles -/
+/-- outside the hypotheses the tree still crashes (rows 8 of DESIGN section 6, recorded as known findings KF08a / KF08b):
+    an integer beyond the doubles where `float` is expected, unhashable elements where a set is built.
+    (A non-JSON object such as a tuple no longer crashes since the repair of row 6: `bad_type` is total.) -/
 theorem C03_crash_counterexamples :
-    (deserialize {} {} .int (.other "tuple")).isCrash = true := by decide +kernel
+    (deserialize {} {} .float (.int (10 ^ 400))).isCrash = true
+    ∧ (deserialize {} {} (.set (.list .int)) (.list [.list [.int 1]])).isCrash = true
+    ∧ (deserialize {} {} .int (.other "tuple")).isCrash = false := by decide +kernel
 
 end Api
